@@ -559,6 +559,9 @@ func vfGenProdCase(t *rapid.T, emph string) *vfProdCase {
 	if emph == "C05" && rapid.IntRange(0, 3).Draw(t, "idleBump") == 0 {
 		vfGenIdleBump(t, c)
 	}
+	if (emph == "C05" || emph == "C01") && c.Sync == 0 && len(c.Conf.Interceptors) == 0 && rapid.IntRange(0, 3).Draw(t, "recycle") == 0 {
+		c.Recycle = true
+	}
 	if !c.StormDelays {
 		vfGenDelays(t, c)
 	}
